@@ -226,7 +226,9 @@ func (m *observerManager) RemoveObserver(o *Observer) {
 	}
 	delete(m.indices, o.id)
 
-	observers := m.observers[o.event]
+	// Copy on write: a running dispatch may range over the current slice
+	// (observers can be unregistered from inside a callback).
+	observers := append([]*observerData(nil), m.observers[o.event]...)
 	observers[idx].id = maxObserverID
 
 	last := uint32(len(observers) - 1)
